@@ -549,6 +549,7 @@ def check_c03(tier):
         cases.append(c); keep.append((it, x, len(entries)))
     verdicts = tlc_cases('HeaderOracle', cases, work, 'hdr', rep)
     n_entries = 0
+    n_bad = {}
     for (it, x, ne), vs in zip(keep, verdicts):
         key = env.canon_hash([it['gtf'], it['variants'], it['cfg'], it['mode']])
         rep.traces(1); rep.case(1, key if ne else None)
@@ -559,23 +560,36 @@ def check_c03(tier):
             kind = re.match(r'"(\w+)"', v).group(1)
             if kind == 'ok':
                 continue
-            labels = re.findall(r'"([^"]+\|[^"]*)"', v)
             ro = replay_obj(it, [s for _, s in x['fasta']], [], [])
             ro['headers'] = x['fasta']
-            if kind == 'context_witness' and (it['cfg']['rule'] in LOOKBEHIND or it['cfg']['exc']):
-                rep.violation(known_key(it, 'context'), f"header entries {labels[:4]} are not witnesses (context-dependent rule)", ro)
-            elif kind == 'missing_frameshift':
-                rep.violation('header_omits_upstream_frameshift', f"header entries {labels[:4]} omit a frameshifting variant that is "
-                              f"needed to produce the peptide", ro)
-            elif kind == 'duplicate_entry':
+            if kind == 'duplicate_entry':
                 rep.violation(f"dup:{key}", "a header entry string occurs twice in one FASTA", ro)
-            else:
+                continue
+            # "bad", {<<label, class>>, ...}
+            by_class = {}
+            for lab, cls in re.findall(r'<<"([^"]+)", "(\w+)">>', v):
+                by_class.setdefault(cls, []).append(lab)
+            if not by_class:
+                rep.machinery(f"unparsable header verdict for case {key}: {v[:200]}")
+            for cls, labels in sorted(by_class.items()):
+                n_bad[cls] = n_bad.get(cls, 0) + len(labels)
                 if it['mode'] == 'collapse' and it['args'].get('naa_to_collapse', 5) < 2:
                     rep.violation(known_key(it, 'collapse_naa1'), f"header entries {labels[:4]} are not witnesses (--naa-to-collapse 1)", ro)
+                elif cls == 'missing_frameshift':
+                    rep.violation('header_omits_upstream_frameshift', f"header entries {labels[:4]} omit a frameshifting variant that is "
+                                  f"needed to produce the peptide", ro)
+                elif cls == 'omits_upstream':
+                    rep.violation('header_omits_upstream_variants', f"header entries {labels[:4]} omit input variants upstream of the "
+                                  f"peptide that are needed to produce it", ro)
+                elif cls == 'names_overlapping':
+                    rep.violation('header_names_overlapping_variants', f"header entries {labels[:4]} name variants whose reference spans "
+                                  f"overlap; a compatible subset of them produces the peptide", ro)
+                elif cls == 'context_witness' and (it['cfg']['rule'] in LOOKBEHIND or it['cfg']['exc']):
+                    rep.violation(known_key(it, 'context'), f"header entries {labels[:4]} are not witnesses (context-dependent rule)", ro)
                 else:
                     rep.violation(f"witness:{key}", f"header entries {labels[:4]} are not truthful witnesses: applying exactly the named "
                                   f"variants does not yield the peptide (mode {it['mode']}, rule {it['cfg']['rule']})", ro)
-    rep.part('headers', entries_checked=n_entries)
+    rep.part('headers', entries_checked=n_entries, non_witness_by_class=n_bad)
     if keep:
         rep.sample(dict(variants=keep[0][0]['variants'], fasta=keep[0][1]['fasta'][:5]))
     return rep.finish()
@@ -755,6 +769,7 @@ def check_c05(tier):
         grew = len({s for _, s in xb['fasta']} - {s for _, s in xa['fasta']}) > 0
         info.append((key, m, grew, xa, xb))
     verdicts = tlc_cases('MonotoneTrace', cases, work, 'mono', rep)
+    pending = []
     for (key, m, grew, xa, xb), vs in zip(info, verdicts):
         rep.traces(1); rep.case(1, key if grew else None)
         kinds = [re.match(r'"(\w+)"', v).group(1) for v in vs]
@@ -771,10 +786,42 @@ def check_c05(tier):
                       variants=m['it'].get('variants'))
             if kd == 'lost_sect_reference':
                 rep.violation('sect_drops_reference_sec_truncation', what, ro)
+            elif kd == 'unattributable' and m['kind'] == 'variant' and m['it'].get('case', {}).get('txs'):
+                pending.append((key, m, xb, peps, what, ro))
             elif rule in LOOKBEHIND or exc:
                 rep.violation(f"context:{rule}:{exc}", what, ro)
             else:
                 rep.violation(f"mono:{key}:{kd}", what, ro)
+    # an added peptide that does not name the added variant: is it the recorded C03 finding (the header omits a variant
+    # upstream of the peptide)?  Decided by HeaderOracle on the entries of those peptides.
+    if pending:
+        hc = []
+        for key, m, xb, peps, what, ro in pending:
+            it = m['it']
+            idx = {t['tx']['id']: k + 1 for k, t in enumerate(it['case']['txs'])}
+            entries = []
+            for h, sq in xb['fasta']:
+                if sq not in peps:
+                    continue
+                for e in h.split(' '):
+                    f = e.split('|')
+                    toks = [y for y in f[1:-1] if not re.fullmatch(r'ORF\d+', y)]
+                    entries.append(dict(tx=idx.get(f[0], 0), ids=[y for y in toks if not y.startswith(('SECT-', 'W2F-'))],
+                                        sect=[it.get('secmap', {}).get(f[0], {}).get(y, -1) for y in toks if y.startswith('SECT-')],
+                                        w2f=[int(y[4:]) for y in toks if y.startswith('W2F-')], seq=list(sq), label=e))
+            hc.append(dict(txs=it['case']['txs'], cfg=it['case']['cfg'], entries=entries))
+        hv = tlc_cases('HeaderOracle', hc, work, 'monohdr', rep)
+        for (key, m, xb, peps, what, ro), c, vs in zip(pending, hc, hv):
+            classes = {}
+            for v in vs:
+                for lab, cls in re.findall(r'<<"([^"]+)", "(\w+)">>', v):
+                    classes[lab] = cls
+            explained = c['entries'] and all(classes.get(e['label']) in ('omits_upstream', 'missing_frameshift') for e in c['entries'])
+            if explained:
+                rep.violation('unattributable_header_omits_upstream', what + ' - every entry of these peptides omits an upstream variant '
+                              '(recorded C03 finding)', ro)
+            else:
+                rep.violation(f"mono:{key}:unattributable", what, ro)
     if info:
         m = info[0][1]
         rep.sample(dict(kind=m['kind'], stricter=len(info[0][3]['fasta']), relaxed=len(info[0][4]['fasta'])))
